@@ -191,7 +191,9 @@ Section Check.
                                 | CTAggr sels => map (fun s => fst (fst s)) sels
                                 | CTNone => []
                                 end in
-                    declare_all vars (clear_top fs)
+                    (* COLLECT outputs are Identifier tokens in the grammar: never the ignore variable *)
+                    if existsb (fun x => bytes_eqb x ign) vars then (CUnnamed, fs)
+                    else declare_all vars (clear_top fs)
                 | err => (err, fs)
                 end
             | r => r
